@@ -198,6 +198,13 @@ func init() {
 	})
 	reg(rulioPath+"/core.RunJavascript", func(ex *Exec, fr *frame, a []Value) Value {
 		pkg := ex.w.pkgs[rulioPath+"/core"]
+		// scripts of the otto protocol family (C14) run the real RunJavascript body
+		// over the otto model below
+		if code, ok := ottoCode(a[3]); ok && ottoFamily(code) != "" {
+			if fn := pkg.Func("RunJavascript"); fn != nil {
+				return ex.callBody(fr, fn, a)
+			}
+		}
 		var fn *ssa.Function
 		if pkg != nil {
 			fn = pkg.Func("vhRunJS")
@@ -216,6 +223,73 @@ func init() {
 		}
 		return ex.call(fr, 0, fn, []Value{a[1], a[2], code})
 	})
+
+	// ---- otto protocol model (C14): New/Set/Run/Export ----
+	const ottoPath = "github.com/robertkrimen/otto"
+	reg(ottoPath+".New", func(ex *Exec, fr *frame, a []Value) Value {
+		pkg := ex.w.pkgs[ottoPath]
+		if pkg == nil {
+			return &Opaque{"otto not loaded"}
+		}
+		cell := zero(pkg.Type("Otto").Object().Type())
+		return &cell
+	})
+	reg("("+ottoPath+".Otto).Set", func(ex *Exec, fr *frame, a []Value) Value { return Iface{} })
+	reg("("+ottoPath+".Otto).ToValue", func(ex *Exec, fr *frame, a []Value) Value {
+		return Tuple{ex.ottoValue(a[1]), Iface{}}
+	})
+	reg("("+ottoPath+".Value).Export", func(ex *Exec, fr *frame, a []Value) Value {
+		st := a[0].(Struct)
+		return Tuple{st[len(st)-1], Iface{}}
+	})
+	reg("("+ottoPath+".Otto).Run", func(ex *Exec, fr *frame, a []Value) Value {
+		code, _ := ottoCode(a[1])
+		otto := a[0].(Struct)
+		var intr *Chan
+		pkg := ex.w.pkgs[ottoPath]
+		st := pkg.Type("Otto").Object().Type().Underlying().(*types.Struct)
+		for i := 0; i < st.NumFields(); i++ {
+			if st.Field(i).Name() == "Interrupt" {
+				intr, _ = otto[i].(*Chan)
+			}
+		}
+		halted := func() {
+			// deliver the interrupt: the function panics (Halt)
+			v, _, _ := ex.tryRecv(intr)
+			if v != nil {
+				ex.call(fr, 0, v, nil)
+			}
+		}
+		switch ottoFamily(code) {
+		case "value":
+			return Tuple{ex.ottoValue(Iface{T: types.Typ[types.Float64], V: float64(2)}), Iface{}}
+		case "throw":
+			return Tuple{ex.ottoValue(Iface{}), ex.newError("Error: thrown")}
+		case "loop":
+			if intr == nil {
+				ex.block(func() bool { return false }, "non-terminating script without interrupt channel")
+			}
+			ex.block(func() bool { return ex.chanReadyRecv(intr) }, "non-terminating script (otto.Run)")
+			halted()
+			return Tuple{ex.ottoValue(Iface{}), ex.newError("interrupt channel closed")}
+		case "slow":
+			// finishes after d unless the interrupt arrives first
+			d := ex.ottoSlowNs
+			fin := ex.newChan(1, nil)
+			fin.isTimer = true
+			fin.deadline = simplify(TAdd(intTerm(ex.clock), intTerm(d)))
+			ex.timers = append(ex.timers, fin)
+			ex.block(func() bool { return (fin.fired && len(fin.buf) > 0) || (intr != nil && ex.chanReadyRecv(intr)) }, "slow script (otto.Run)")
+			if intr != nil && ex.chanReadyRecv(intr) && !(fin.fired && len(fin.buf) > 0) {
+				fin.stopped = true
+				halted()
+			}
+			fin.stopped = true
+			return Tuple{ex.ottoValue(Iface{T: types.Typ[types.Float64], V: float64(2)}), Iface{}}
+		}
+		return &Opaque{"otto.Run of a script outside the protocol family"}
+	})
+	regPrim("vottoSlow", func(ex *Exec, fr *frame, a []Value) Value { ex.ottoSlowNs = a[0]; return nil })
 
 	// ---- sync ----
 	reg("(*sync.Mutex).Lock", func(ex *Exec, fr *frame, a []Value) Value {
@@ -989,4 +1063,46 @@ func (p *Program) reflectValueType() types.Type {
 // ifaceIntrinsic lets the engine answer interface method calls on engine-made values.
 func (ex *Exec) ifaceIntrinsic(recv Iface, m *types.Func) *NativeFn {
 	return nil
+}
+
+// ottoCode extracts the script text from what RunJavascript / otto.Run get as src.
+func ottoCode(src Value) (string, bool) {
+	switch v := src.(type) {
+	case string:
+		return v, true
+	case Iface:
+		switch p := v.V.(type) {
+		case *Value:
+			if p != nil {
+				if s, ok := (*p).(string); ok {
+					return s, true
+				}
+			}
+		case string:
+			return p, true
+		}
+	}
+	return "", false
+}
+
+// ottoFamily classifies the scripts of the C14 protocol family by their (real JS) text.
+func ottoFamily(code string) string {
+	switch strings.TrimSpace(code) {
+	case "1+1":
+		return "value"
+	case "throw 'x'":
+		return "throw"
+	case "while(true){}":
+		return "loop"
+	case "Env.sleep(SLOW); 1+1":
+		return "slow"
+	}
+	return ""
+}
+
+func (ex *Exec) ottoValue(payload Value) Value {
+	pkg := ex.w.pkgs["github.com/robertkrimen/otto"]
+	st := zero(pkg.Type("Value").Object().Type()).(Struct)
+	st[len(st)-1] = payload
+	return st
 }
